@@ -131,6 +131,22 @@ theorem Inv.isSome {st : St} (h : Inv st) : (curBlk st.scopes).isSome = true := 
   obtain ⟨b, hb, _⟩ := h.blk
   simp [hb]
 
+/-- number of R603 subtype rows of statement `i` -/
+def subCount (q : FlatPop) (i : Nat) : Nat := (q.filter (fun r => r.smtOf == some i)).length
+
+theorem subCount_zero {l : List Row} {i : Nat} (h : ∀ x ∈ l, x.smtOf ≠ some i) : subCount l i = 0 := by
+  unfold subCount
+  rw [List.length_eq_zero_iff, List.filter_eq_nil_iff]
+  intro x hx; simpa using h x hx
+
+theorem subCount_append (a b : List Row) (i : Nat) : subCount (a ++ b) i = subCount a i + subCount b i := by
+  simp [subCount, List.filter_append]
+
+theorem subCount_parts {a c : List Row} {r : Row} {i : Nat} (ha : ∀ x ∈ a, x.smtOf ≠ some i)
+    (hc : ∀ x ∈ c, x.smtOf ≠ some i) (hr : r.smtOf = some i) : subCount (a ++ [r] ++ c) i = 1 := by
+  rw [subCount_append, subCount_append, subCount_zero ha, subCount_zero hc]
+  simp [subCount, hr]
+
 /-- what one `accept_<statement node>` call does to the builder state -/
 structure StmtSpec (fc : FCtx) (prev : Option Nat) (s : Stmt) (st : St) : Prop where
   ok0 : st.ok = true
@@ -151,6 +167,8 @@ structure StmtSpec (fc : FCtx) (prev : Option Nat) (s : Stmt) (st : St) : Prop w
     ((buildStmt fc prev s st).2.pop ++ ext)[i]? = some (.smt b' p) → st.pop.length ≤ i →
     i < (buildStmt fc prev s st).2.pop.length →
     ∃ row, smtSub ((buildStmt fc prev s st).2.pop ++ ext) i = some row ∧ row.smtOf = some i
+  uniq : ∀ ext : List Row, (∀ x ∈ ext, x.smtOf ≠ some st.pop.length) →
+    subCount ((buildStmt fc prev s st).2.pop ++ ext) st.pop.length = 1
 
 /-- a statement without nested blocks: ACT_SMT, then value / variable rows, then the R603 subtype row -/
 theorem simple_spec {fc : FCtx} {prev : Option Nat} {s : Stmt} {st : St} (mid : St) (sub : Row)
@@ -181,7 +199,7 @@ theorem simple_spec {fc : FCtx} {prev : Option Nat} {s : Stmt} {st : St} (mid : 
     rw [this, List.getElem?_cons_succ] at hx
     have := (hrows x (List.mem_of_getElem? hx)).1
     rw [this]; simp
-  refine ⟨hok0, by rw [hb], ⟨dm ++ [sub], ?_, ?_, ?_⟩, ⟨?_, ?_, ?_⟩, ?_, ?_, ?_, ?_⟩
+  refine ⟨hok0, by rw [hb], ⟨dm ++ [sub], ?_, ?_, ?_⟩, ⟨?_, ?_, ?_⟩, ?_, ?_, ?_, ?_, ?_⟩
   · rw [hb]; simp [hdm]
   · simp; omega
   · intro x hx
@@ -221,6 +239,25 @@ theorem simple_spec {fc : FCtx} {prev : Option Nat} {s : Stmt} {st : St} (mid : 
       rcases List.mem_append.1 hm with h | h
       · have := (hrows _ h).2; simp [skeys] at this
       · simp at h; rw [← h] at hsk; simp [skeys] at hsk
+  · intro ext hext
+    rw [hb]
+    simp only [new_pop]
+    apply subCount_parts _ hext hsub
+    intro x hx
+    rw [hdm] at hx
+    rcases List.mem_append.1 hx with h | h
+    · obtain ⟨i, hi⟩ := List.getElem?_of_mem h
+      have hlt : i < st.pop.length := by
+        rcases Nat.lt_or_ge i st.pop.length with h' | h'
+        · exact h'
+        · simp [List.getElem?_eq_none h'] at hi
+      intro hx'
+      have := (hinv.ts i x hi).2.1 _ hx'
+      omega
+    · simp at h
+      rcases h with rfl | h
+      · simp [Row.smtOf]
+      · rw [(hrows x h).1]; simp
 
 @[simp] theorem newSmt_fst (prev : Option Nat) (st : St) : (newSmt prev st).1 = st.pop.length := by simp [newSmt]
 @[simp] theorem newSmt_pop (prev : Option Nat) (st : St) :
@@ -934,6 +971,53 @@ theorem okAll_of_ok (fc : FCtx) : ∀ (ss : Block) (prev : Option Nat) (st : St)
     simp only [okAll, Bool.and_eq_true]
     exact ⟨buildStmts_ok_mono_core fc rest _ _ hc.2 h, okAll_of_ok fc rest _ _ hc.2 h⟩
 
+/-- the R661 chain of a block as a list: the first statement by the R602 filter, then successor by successor -/
+def chainFrom (q : FlatPop) : Nat → Option Nat → List Nat
+  | 0, _ => []
+  | _ + 1, none => []
+  | f + 1, some s => s :: chainFrom q f (succStmt q s)
+
+def chainOf (q : FlatPop) (b : Nat) : List Nat := chainFrom q q.length (firstStmt q b)
+
+def lenB : Block → Nat
+  | .nil => 0
+  | .cons _ rest => lenB rest + 1
+
+/-- the ACT_SMT rows the statement-list loop creates for the statements of the list itself, in source order -/
+def stmtIds (fc : FCtx) : Option Nat → Block → St → List Nat
+  | _, .nil, _ => []
+  | prev, .cons s rest, st =>
+    st.pop.length :: stmtIds fc (some (buildStmt fc prev s st).1) rest (buildStmt fc prev s st).2
+
+/-- every listed statement is an ACT_SMT of block `b` whose Previous_Statement_ID names the one listed before it -/
+def linked (q : FlatPop) (b : Nat) : Option Nat → List Nat → Prop
+  | _, [] => True
+  | prev, i :: rest => q[i]? = some (.smt b prev) ∧ linked q b (some i) rest
+
+theorem stmtIds_length (fc : FCtx) : ∀ (ss : Block) (prev : Option Nat) (st : St),
+    (stmtIds fc prev ss st).length = lenB ss
+  | .nil, _, _ => rfl
+  | .cons s rest, prev, st => by simp [stmtIds, lenB, stmtIds_length fc rest]
+
+/-- a linked list of statements is strictly increasing (each row names an EARLIER row): no statement twice, no cycle -/
+theorem linked_increasing {q : FlatPop} {b : Nat} (hts : TS q) : ∀ (ids : List Nat) (prev : Option Nat),
+    linked q b prev ids → (∀ k, prev = some k → ∀ i ∈ ids, k < i) ∧ ids.Pairwise (· < ·)
+  | [], _, _ => by simp
+  | i :: rest, prev, h => by
+    obtain ⟨hrow, hrest⟩ := h
+    obtain ⟨h1, h2⟩ := linked_increasing hts rest (some i) hrest
+    have hk : ∀ k, prev = some k → k < i := by
+      intro k hk; subst hk
+      exact (hts i _ hrow).2.2 k (by simp [skeys])
+    refine ⟨?_, ?_⟩
+    · intro k hkp j hj
+      simp at hj
+      rcases hj with rfl | hj
+      · exact hk k hkp
+      · exact Nat.lt_trans (hk k hkp) (h1 i rfl j hj)
+    · simp only [List.pairwise_cons]
+      exact ⟨fun j hj => h1 i rfl j hj, h2⟩
+
 structure ChainSpec (fc : FCtx) (prev : Option Nat) (ss : Block) (st : St) : Prop where
   ok0 : st.ok = true
   inv : Inv (buildStmts fc prev ss st)
@@ -951,6 +1035,14 @@ structure ChainSpec (fc : FCtx) (prev : Option Nat) (ss : Block) (st : St) : Pro
     ((buildStmts fc prev ss st).pop ++ ext)[i]? = some (.smt b' p) → st.pop.length ≤ i →
     i < (buildStmts fc prev ss st).pop.length →
     ∃ row, smtSub ((buildStmts fc prev ss st).pop ++ ext) i = some row ∧ row.smtOf = some i
+  chain : ∀ (ext : List Row) (fuel : Nat), FreshC st.pop.length (buildStmts fc prev ss st).pop.length ext →
+    lenB ss ≤ fuel → chainFrom ((buildStmts fc prev ss st).pop ++ ext) fuel (headOf st.pop.length ss) = stmtIds fc prev ss st
+  linked : ∀ ext : List Row, linked ((buildStmts fc prev ss st).pop ++ ext) (curBlkD st.scopes) prev (stmtIds fc prev ss st)
+  keysGe : ∀ d : List Row, (buildStmts fc prev ss st).pop = st.pop ++ d →
+    ∀ x ∈ d, ∀ k, x.smtOf = some k → st.pop.length ≤ k
+  uniq : ∀ ext : List Row,
+    (∀ x ∈ ext, ∀ k, x.smtOf = some k → k < st.pop.length ∨ (buildStmts fc prev ss st).pop.length ≤ k) →
+    ∀ i ∈ stmtIds fc prev ss st, subCount ((buildStmts fc prev ss st).pop ++ ext) i = 1
 
 theorem ikeys_sub_skeys (x : Row) : ∀ k ∈ ikeys x, k ∈ skeys x := by
   intro k hk; cases x <;> simp [ikeys, skeys] at hk ⊢ <;> exact hk
@@ -960,13 +1052,20 @@ theorem buildStmts_spec (fc : FCtx) : ∀ (ss : Block) (prev : Option Nat) (st :
   | .nil, prev, st, _, hinv, _, hok => by
     simp only [okAll] at hok
     refine ⟨hok, (by simpa [buildStmts] using hinv), (by simp [buildStmts]), ⟨[], (by simp [buildStmts]), (by simp [szB]),
-      (by intro s rest h; cases h), (by simp)⟩, (by intro ext s rest h; cases h), ?_, ?_⟩
+      (by intro s rest h; cases h), (by simp)⟩, (by intro ext s rest h; cases h), ?_, ?_, ?_, ?_, ?_, ?_⟩
     · intro ext fuel _ hf
       simp only [szB] at hf
       obtain ⟨f, rfl⟩ := fuel_succ hf
       simp [headOf, regenChain, genBlock]
     · intro ext i b' p _ hge hlt
       simp [buildStmts] at hlt; omega
+    · intro ext fuel _ _
+      cases fuel <;> simp [chainFrom, stmtIds, headOf]
+    · intro ext; simp [stmtIds, linked]
+    · intro d hd x hx
+      have : d = [] := by simpa [buildStmts] using hd.symm
+      subst this; cases hx
+    · intro ext _ i hi; simp [stmtIds] at hi
   | .cons s rest, prev, st, hc, hinv, hprev, hok => by
     simp only [coreB, Bool.and_eq_true] at hc
     simp only [okAll, Bool.and_eq_true] at hok
@@ -998,7 +1097,32 @@ theorem buildStmts_spec (fc : FCtx) : ∀ (ss : Block) (prev : Option Nat) (st :
         · subst hxe; simp at h
           have := hprev st.pop.length h.2.symm; omega
         · have := ((hk1 x h).2.1 b' _ hxe).2 st.pop.length rfl; omega
-    refine ⟨S.ok0, by rw [hbs]; exact C.inv, ?_, ⟨.smt (curBlkD st.scopes) prev :: d1 ++ d2, ?_, ?_, ?_, ?_⟩, ?_, ?_, ?_⟩
+    have hsuccAll : ∀ ext : List Row, FreshC st.pop.length (buildStmts fc prev (.cons s rest) st).pop.length ext →
+        succStmt ((buildStmts fc prev (.cons s rest) st).pop ++ ext) st.pop.length =
+          headOf (buildStmt fc prev s st).2.pop.length rest := by
+      intro ext hfresh
+      rw [hbs] at hfresh ⊢
+      cases rest with
+      | nil =>
+        have hnil : buildStmts fc (some (buildStmt fc prev s st).1) .nil (buildStmt fc prev s st).2 =
+            (buildStmt fc prev s st).2 := by simp [buildStmts]
+        rw [hnil] at hfresh ⊢
+        simp only [headOf]
+        apply succStmt_none
+        intro x hx b'
+        rcases List.mem_append.1 hx with h | h
+        · exact hno x h b'
+        · intro hxe; subst hxe
+          have := hfresh _ h st.pop.length (by simp [skeys])
+          omega
+      | cons s2 rest2 =>
+        obtain ⟨d2', hd2'⟩ := hhead2 s2 rest2 rfl
+        simp only [headOf]
+        rw [hd2, List.append_assoc]
+        apply succStmt_some (b' := curBlkD (buildStmt fc prev s st).2.scopes) hno
+        rw [List.getElem?_append_right (Nat.le_refl _), hd2']
+        simp [hfst]
+    refine ⟨S.ok0, by rw [hbs]; exact C.inv, ?_, ⟨.smt (curBlkD st.scopes) prev :: d1 ++ d2, ?_, ?_, ?_, ?_⟩, ?_, ?_, ?_, ?_, ?_, ?_, ?_⟩
     · rw [hbs]; exact ⟨C.shape.1.trans S.shape.1, C.shape.2.trans S.shape.2⟩
     · rw [hbs, hd2, hd1]; simp
     · simp [szB]; omega
@@ -1102,6 +1226,51 @@ theorem buildStmts_spec (fc : FCtx) : ∀ (ss : Block) (prev : Option Nat) (st :
       · rw [hd2, List.append_assoc] at hi ⊢
         exact S.subsAll (d2 ++ ext) i b' p hi hge h1
       · exact C.subsAll ext i b' p hi (by omega) hlt
+    · intro ext fuel hfresh hf
+      simp only [lenB] at hf
+      obtain ⟨f, rfl⟩ := fuel_succ (by omega : 1 ≤ fuel)
+      have hs := hsuccAll ext hfresh
+      rw [hbs] at hfresh hs ⊢
+      have hh : headOf st.pop.length (.cons s rest) = some st.pop.length := rfl
+      rw [hh]
+      have := C.chain ext f (by
+        intro x hx k hk
+        have := hfresh x hx k hk
+        omega) (by omega)
+      simp only [chainFrom, stmtIds, hs, this]
+    · intro ext
+      simp only [stmtIds, linked]
+      rw [hbs]
+      refine ⟨?_, ?_⟩
+      · rw [hd2, hd1]; simp
+      · have := C.linked ext
+        rw [hcb] at this
+        rw [hfst] at this ⊢
+        exact this
+    · intro d hd x hx k hk
+      rw [hbs, hd2, hd1, List.append_assoc] at hd
+      have hdd := List.append_cancel_left hd
+      rw [← hdd] at hx
+      simp at hx
+      rcases hx with rfl | hx | hx
+      · simp [Row.smtOf] at hk
+      · exact (hk1 x hx).1 k hk
+      · have := C.keysGe d2 hd2 x hx k hk; omega
+    · intro ext hext i hi
+      rw [hbs] at hext ⊢
+      simp only [stmtIds, List.mem_cons] at hi
+      rcases hi with rfl | hi
+      · rw [hd2, List.append_assoc]
+        apply S.uniq
+        intro x hx hxe
+        rcases List.mem_append.1 hx with h | h
+        · have := C.keysGe d2 hd2 x h _ hxe; omega
+        · have := hext x h _ hxe
+          rw [hd2] at this; simp at this; omega
+      · apply C.uniq ext _ i hi
+        intro x hx k hk
+        have := hext x hx k hk
+        omega
 
 /-! ### whole bodies -/
 
@@ -1125,6 +1294,75 @@ theorem isElifOrElse_false {q : FlatPop} {s : Nat} {row : Row} (h : smtSub q s =
   cases row <;> simp [ikeys] at hi ⊢
 
 /-- reading back the population of a whole body (`coreB`: statements of `coreS`, no nested block) prints the body -/
+theorem lenB_le_szB : ∀ ss : Block, lenB ss ≤ szB ss
+  | .nil => by simp [lenB]
+  | .cons s rest => by have := lenB_le_szB rest; simp [lenB, szB]; omega
+
+/-- the first statement of the outer block found by the R602 filter -/
+theorem firstStmt_prebuildFlat (fc : FCtx) (a : Block) (hc : coreB a = true) (hok : okAll fc none a bodySt = true) :
+    firstStmt (prebuildFlat fc a) 0 = headOf 1 a ∧ szB a ≤ (prebuildFlat fc a).length := by
+  have C := buildStmts_spec fc a none bodySt hc bodySt_inv (by intro k h; cases h) hok
+  obtain ⟨d, hd, hsz, hhead, _⟩ := C.grows
+  have hp : prebuildFlat fc a = (buildStmts fc none a bodySt).pop := by
+    simp [prebuildFlat, prebuildSt, popScope, bodySt]
+  have hpop : prebuildFlat fc a = .blk true :: d := by rw [hp, hd]; simp [bodySt, pushScope]
+  have hlen : (prebuildFlat fc a).length = d.length + 1 := by rw [hpop]; simp
+  have houter : outerBlk (prebuildFlat fc a) = some 0 := by
+    rw [hpop]; unfold outerBlk; rw [List.findIdx?_cons]; simp
+  have hfirst : firstStmt (prebuildFlat fc a) 0 = headOf 1 a := by
+    unfold firstStmt
+    cases a with
+    | nil =>
+      have : d = [] := by
+        have : (buildStmts fc none .nil bodySt).pop = bodySt.pop := by simp [buildStmts]
+        rw [this] at hd; simpa [bodySt, pushScope] using hd.symm
+      subst this
+      rw [hpop]; simp [headOf]
+    | cons s rest =>
+      obtain ⟨d', hd'⟩ := hhead s rest rfl
+      obtain ⟨row, hrow, hik⟩ := C.first [] s rest rfl
+      simp only [List.append_nil, ← hp] at hrow
+      have hb0 : curBlkD bodySt.scopes = 0 := rfl
+      have hl1 : bodySt.pop.length = 1 := rfl
+      rw [hl1] at hrow
+      simp only [headOf]
+      have hq1 : (prebuildFlat fc (.cons s rest))[1]? = some (.smt 0 none) := by rw [hpop, hd', hb0]; rfl
+      have hq0 : (prebuildFlat fc (.cons s rest))[0]? = some (.blk true) := by rw [hpop]; rfl
+      apply range_find_some (by rw [hlen, hd']; simp)
+      · simp only [hq1]
+        simp [isElifOrElse_false hrow hik]
+      · intro i hi
+        have : i = 0 := by omega
+        subst this
+        simp only [hq0]
+  exact ⟨hfirst, by rw [hlen]; exact hsz⟩
+
+/-- the R661 chain of the outer block, as a list: exactly the ACT_SMT rows the builder created for the statements of the
+    body, in source order; each names its predecessor; strictly increasing -/
+theorem chainOf_prebuildFlat (fc : FCtx) (a : Block) (hc : coreB a = true) (hok : okAll fc none a bodySt = true) :
+    chainOf (prebuildFlat fc a) 0 = stmtIds fc none a bodySt ∧
+    linked (prebuildFlat fc a) 0 none (stmtIds fc none a bodySt) ∧
+    (stmtIds fc none a bodySt).Pairwise (· < ·) := by
+  have C := buildStmts_spec fc a none bodySt hc bodySt_inv (by intro k h; cases h) hok
+  have hp : prebuildFlat fc a = (buildStmts fc none a bodySt).pop := by
+    simp [prebuildFlat, prebuildSt, popScope, bodySt]
+  obtain ⟨hfirst, hsz⟩ := firstStmt_prebuildFlat fc a hc hok
+  have hl : linked (prebuildFlat fc a) 0 none (stmtIds fc none a bodySt) := by
+    have := C.linked []
+    have hb0 : curBlkD bodySt.scopes = 0 := rfl
+    rw [hb0] at this
+    simpa [← hp] using this
+  refine ⟨?_, hl, ?_⟩
+  · unfold chainOf
+    rw [hfirst]
+    have := C.chain [] (prebuildFlat fc a).length (by intro x hx; cases hx)
+      (Nat.le_trans (lenB_le_szB a) hsz)
+    have hl1 : bodySt.pop.length = 1 := rfl
+    rw [hl1] at this
+    simpa [← hp] using this
+  · have hts : TS (prebuildFlat fc a) := by rw [hp]; exact C.inv.ts
+    exact (linked_increasing hts _ none hl).2
+
 theorem regenFlat_prebuildFlat (fc : FCtx) (a : Block) (hc : coreB a = true) (hok : okAll fc none a bodySt = true) :
     regenFlat (prebuildFlat fc a) = genTokens a := by
   have C := buildStmts_spec fc a none bodySt hc bodySt_inv (by intro k h; cases h) hok
@@ -1195,6 +1433,16 @@ theorem prebuildFlat_subtypes (fc : FCtx) (a : Block) (hc : coreB a = true) (hok
       subst this; simp [bodySt, pushScope] at hi
     · exact h'
   have := C.subsAll [] i b' p (by simpa [← hp] using hi) hge (by rw [← hp]; exact hlt)
+  simpa [← hp] using this
+
+/-- every statement of the body has EXACTLY ONE R603 subtype row (as a count) -/
+theorem prebuildFlat_subCount (fc : FCtx) (a : Block) (hc : coreB a = true) (hok : okAll fc none a bodySt = true) :
+    ∀ i ∈ stmtIds fc none a bodySt, subCount (prebuildFlat fc a) i = 1 := by
+  have C := buildStmts_spec fc a none bodySt hc bodySt_inv (by intro k h; cases h) hok
+  have hp : prebuildFlat fc a = (buildStmts fc none a bodySt).pop := by
+    simp [prebuildFlat, prebuildSt, popScope, bodySt]
+  intro i hi
+  have := C.uniq [] (by intro x hx; cases hx) i hi
   simpa [← hp] using this
 
 theorem okAll_of_flatOk (fc : FCtx) (a : Block) (hc : coreB a = true) (h : flatOk fc a = true) :
